@@ -49,8 +49,13 @@ from harness.c10_tree import oracle_eval
 from harness.c10_tree import out_dim
 from harness.c10_tree import protocol_line
 from harness.c10_tree import smooth_agg_reference
+from harness.c10_tree import share_classes
+from harness.c10_tree import share_consistent
+from harness.c10_tree import shared_nodes
 from harness.c10_tree import tree_depth
 from harness.c10_tree import tree_ops
+from harness.c10_tree import view_indices
+from harness.c10_tree import view_polys
 from harness import c10_hist as hist
 
 PID = "C10"
@@ -113,13 +118,112 @@ def gen_point(rng, n: int, integer: bool | None = None) -> list[str]:
     return [rat(Fraction(rng.randint(-6, 6), 2)) for _ in range(n)]
 
 
+def view_specs(n: int, m: int) -> list:
+    """Every way of returning m of the n components of the input array without a copy: the array itself, or a
+    basic slice of it (forward, strided, reversed)."""
+    out: list = ["self"] if m == n else []
+    seen = set()
+    for step in (1, 2, -1, -2):
+        for start in [None, *range(n)]:
+            for stop in [None, *range(n + 1)]:
+                idx = tuple(list(range(n))[slice(start, stop, step)])
+                if len(idx) == m and (idx, step) not in seen:
+                    seen.add((idx, step))
+                    out.append([start, stop, step])
+    return out
+
+
+def gen_view_leaf(rng, n: int, m: int) -> dict | None:
+    """A user function that returns (a view of) the array it receives: x -> x, x -> x[1:], x -> x[::-1], ..."""
+    specs = view_specs(n, m)
+    if not specs:
+        return None
+    view = "self" if (m == n and rng.chance(0.4)) else rng.pick(specs)
+    return {"op": "poly", "style": "w", "view": view, "polys": view_polys(n, view)}
+
+
+def view_kind(node: dict) -> str:
+    v = node["view"]
+    return "input-array-itself" if v == "self" else ("reversed-slice" if v[2] < 0 else "slice")
+
+
+VIEW_LEAF_RATE = 0.16
+
+
 def gen_leaf(rng, n: int, m: int) -> dict:
     r = rng.random()
+    if m <= n and rng.chance(VIEW_LEAF_RATE):
+        v = gen_view_leaf(rng, n, m)
+        if v is not None:
+            return v
     if m == 1 and n <= 3 and r < 0.2:
         return gen_quad(rng, n)
     if r < 0.4:
         return gen_lin(rng, n, m)
     return gen_poly(rng, n, m)
+
+
+# ---- one function object used at several places of a tree
+
+
+def gen_shared_target(rng, n: int, m: int, depth: int) -> dict:
+    """The function object that is used twice: a restriction / a linear composition (often of a function that
+    returns a view of its input), or any node."""
+    r = rng.random()
+    node = None
+    if r < 0.45 and n <= 4:
+        kf = rng.pick([1, 1, 2])
+        N = n + kf
+        frozen = sorted(rng.sample(range(N), kf))
+        inner = gen_view_leaf(rng, N, m) if (m <= N and rng.chance(0.6)) else None
+        node = {"op": "res", "a": inner or gen_node(rng, N, m, max(depth - 1, 0)), "N": N, "frozen": frozen, "values": gen_point(rng, kf)}
+    elif r < 0.65:
+        k = rng.pick([m, 2, 3])
+        inner = gen_view_leaf(rng, k, m) if (m <= k and rng.chance(0.6)) else None
+        node = {"op": "lc", "a": inner or gen_node(rng, k, m, max(depth - 1, 0)), "A": [[str(rng.randint(-2, 2)) for _ in range(n)] for _ in range(k)]}
+    elif r < 0.8 and m <= n:
+        node = gen_view_leaf(rng, n, m)
+    if node is None:
+        node = gen_node(rng, n, m, max(depth, 0))
+    node["share"] = "s%d" % rng.randrange(10**9)
+    return node
+
+
+SHARED_HOWS = ("lc-lc", "lc-lc", "res-res", "same-argument", "direct-lc")
+
+
+def gen_shared_pair(rng, n: int, m: int, depth: int, how: str | None = None) -> tuple[dict, dict, str]:
+    """Two operands R^n -> R^m that use ONE function object S, in general at different arguments:
+    S(Ax), S(Bx) | S(x with frozen u), S(x with frozen v) | S(x), S(x) | S(x), S(Bx)."""
+    how = how or rng.pick(SHARED_HOWS)
+    if how == "res-res" and n > 4:
+        how = "lc-lc"
+    mat = lambda rows, cols: [[str(rng.randint(-2, 2)) for _ in range(cols)] for _ in range(rows)]  # noqa: E731
+    if how == "lc-lc":
+        k = rng.pick([1, 2, 2, 3, m])
+        s1 = gen_shared_target(rng, k, m, depth - 1)
+        a = {"op": "lc", "a": s1, "A": mat(k, n)}
+        b = {"op": "lc", "a": copy.deepcopy(s1), "A": mat(k, n)}
+    elif how == "res-res":
+        kf = rng.pick([1, 1, 2])
+        N = n + kf
+        s1 = gen_shared_target(rng, N, m, depth - 1)
+        f1 = sorted(rng.sample(range(N), kf))
+        f2 = f1 if rng.chance(0.6) else sorted(rng.sample(range(N), kf))
+        a = {"op": "res", "a": s1, "N": N, "frozen": f1, "values": gen_point(rng, kf)}
+        b = {"op": "res", "a": copy.deepcopy(s1), "N": N, "frozen": f2, "values": gen_point(rng, kf)}
+    elif how == "same-argument":
+        a = gen_shared_target(rng, n, m, depth)
+        b = copy.deepcopy(a)
+    else:
+        a = gen_shared_target(rng, n, m, depth)
+        b = {"op": "lc", "a": copy.deepcopy(a), "A": mat(n, n)}
+    if rng.chance(0.5):
+        a, b = b, a
+    return a, b, how
+
+
+SHARED_RATE = 0.12
 
 
 def gen_linear(rng, n: int, m: int, depth: int, nrm_ok: bool = False) -> dict:
@@ -235,6 +339,9 @@ def gen_node(rng, n: int, m: int, depth: int, top: bool = False) -> dict:
     if op == "leaf":
         return gen_leaf(rng, n, m)
     if op in BINOPS:
+        if rng.chance(SHARED_RATE):
+            a, b, how = gen_shared_pair(rng, n, m, depth - 1)
+            return {"op": op, "a": a, "b": b, "shared_how": how}
         ma, b = gen_second_operand(rng, n, m, depth, op)
         return {"op": op, "a": gen_node(rng, n, ma, depth - 1), "b": b}
     if op == "neg":
@@ -256,6 +363,9 @@ def gen_node(rng, n: int, m: int, depth: int, top: bool = False) -> dict:
             k = m  # inner input dimension == output dimension: a wrong product is silently wrong
         A = [[str(rng.randint(-2, 2)) for _ in range(n)] for _ in range(k)]
         return {"op": "lc", "a": gen_node(rng, k, m, depth - 1), "A": A}
+    if op == "cat" and m >= 2 and m % 2 == 0 and rng.chance(SHARED_RATE):
+        a, b, how = gen_shared_pair(rng, n, m // 2, depth - 1)
+        return {"op": "cat", "args": [a, b], "shared_how": how}
     if op == "cat" and m >= 2:
         parts = []
         left = m
@@ -366,7 +476,10 @@ def gen_case(rng, max_depth: int = 4, smooth: bool = False) -> dict | None:
         out_dim(tree, n)
     except IllShaped:
         return None
-    pts = in_scope_points(tree, n, [gen_point(rng, n) for _ in range(6)])[:2]
+    if not share_consistent(tree):
+        return None
+    pts = in_scope_points(tree, n, [gen_point(rng, n) for _ in range(6)])
+    pts = [p for i, p in enumerate(pts) if p not in pts[:i]][:2]  # two DIFFERENT points whenever possible
     if not pts:
         return None
     return {"n": n, "tree": tree, "points": pts, "order": rng.pick(["vj", "jv"])}
@@ -391,6 +504,7 @@ def observe(case: dict) -> dict:
     root = impl.root
     pts = list(case["points"])
     seq = pts + pts[:1]  # the first point again at the end: results must not depend on history
+    held: list[tuple[str, np.ndarray, np.ndarray]] = []  # every array returned so far, with a copy: re-read after later calls
     for p in seq:
         x = np.array([float(Fraction(t)) for t in p])
         x_ref = x.copy()
@@ -400,11 +514,19 @@ def observe(case: dict) -> dict:
             slot = c + ("2" if c in rec or c + "_exc" in rec else "")
             try:
                 if c == "v":
-                    rec[slot] = canon_value(root.evaluate(x))
+                    out = root.evaluate(x)
+                    rec[slot] = canon_value(out)
                 else:
-                    rec[slot] = canon_jac(root.jac(x))
+                    out = root.jac(x)
+                    rec[slot] = canon_jac(out)
+                if isinstance(out, np.ndarray) and out.dtype != object:
+                    held.append((f"{'evaluate' if c == 'v' else 'jac'}({p})", out, out.copy()))
             except Exception as e:  # noqa: BLE001
                 rec[slot + "_exc"] = common.exc_class(e) + ": " + repr(e)[:160]
+            over = [label for label, arr, ref in held if arr.shape != ref.shape or not np.array_equal(arr, ref, equal_nan=True)]
+            if over:
+                rec.setdefault("overwritten", []).append(f"the array returned by {over[0]} was changed by a later {'evaluate' if c == 'v' else 'jac'}({p})")
+                held = [(label, arr, arr.copy()) for label, arr, _ in held]
         if not np.array_equal(x, x_ref):
             rec["x_modified"] = True
         rec["modified"] = impl.modified_operands()
@@ -553,13 +675,16 @@ def judge(case: dict, obs: dict, res: Result | None = None) -> list[tuple[str, s
             bad.append(("operand-modified", "the input vector was modified in place"))
         if rec["modified"]:
             bad.append(("operand-modified", "modified in place: " + "; ".join(sorted(set(rec["modified"]))[:3])))
+        if rec.get("overwritten"):
+            bad.append(("result-overwritten", rec["overwritten"][0] + ": a value returned to the caller is not the value of the function at its point any more"))
     # last_eval of operands: must be a value the operand really takes at a point it was evaluated at
     if not smooth:
+        same_object = share_classes(tree)  # one function object used at several places: evaluated at the points of all of them
         for rec in obs["points"]:
             for nid, op, val in rec["last_eval"]:
                 if nid == id(tree):
                     continue  # the root's own value is judged above
-                cands = traces.get(nid)
+                cands = [t for g in same_object.get(nid, [nid]) for t in traces.get(g, [])]
                 if not cands:
                     continue
                 if not any(len(val) == len(c) and all(math.isfinite(a) and abs(F(a) - b) <= REL * max(1, abs(b)) for a, b in zip(val, c)) for _, c in cands):
@@ -706,15 +831,18 @@ def shrink(case: dict, clause: str, budget: int = 60) -> tuple[dict, str]:
         changed = False
         tree, n = cur["tree"], cur["n"]
         x = [Fraction(t) for t in cur["points"][0]]
-        # 2. descend into a failing child (any clause of the same family)
+        # 2. descend into a failing child (any clause of the same family); every point is carried down
+        # (a failure that needs two different points stays reproducible)
         for ci, ch in enumerate(children(tree)):
             if ch["op"] in ("num", "arr"):
                 continue
             lp = local_point(tree, ci, x)
             if lp is None:
                 continue
-            cn, cx = lp
-            c = {"n": cn, "tree": ch, "points": [[rat(t) for t in cx]], "order": cur.get("order", "vj")}
+            cn = lp[0]
+            cpts = [[rat(t) for t in local_point(tree, ci, [Fraction(t) for t in p])[1]] for p in cur["points"]]
+            cpts = [p for i, p in enumerate(cpts) if p not in cpts[:i]]
+            c = {"n": cn, "tree": ch, "points": cpts, "order": cur.get("order", "vj")}
             calls += 1
             sub_bad = fails(c, None)
             if sub_bad:
@@ -837,6 +965,28 @@ def case_key(case: dict) -> str:
     return json.dumps([case["n"], case["tree"], case["points"]], sort_keys=True)
 
 
+def count_alias_features(res: Result, tree: dict, n: int, prefix: str) -> None:
+    """Histogram of the aliasing-relevant features of a tree: user functions returning (a view of) their input and what
+    calls them; one function object used at several places."""
+    seen: set[str] = set()
+
+    def visit(node: dict, parent: str) -> None:
+        if node["op"] == "poly" and node.get("style") == "w":
+            seen.add(f"view-leaf:{view_kind(node)}")
+            seen.add(f"view-leaf-called-by:{parent}")
+        if node.get("shared_how"):
+            seen.add(f"one-object-twice:{node['shared_how']}({node['op']})")
+        if node.get("share") is not None:
+            seen.add("shared-object:" + (("view-leaf" if node.get("style") == "w" else node["op"])
+                                         + ("(view-leaf)" if any(c.get("style") == "w" for c in children(node)) else "")))
+        for c in children(node):
+            visit(c, node["op"] if node["op"] != "agg" else "agg-" + node["kind"])
+
+    visit(tree, "caller(root)")
+    for k in seen:
+        res.count(prefix + k)
+
+
 def check_cases(res: Result, cases: list[dict], in_scope: bool = True, use_model: bool = True) -> None:
     answers: list[list[str]] = [[] for _ in cases]
     exact_cases = [i for i, c in enumerate(cases) if not has_smooth(c["tree"])]
@@ -861,6 +1011,9 @@ def check_cases(res: Result, cases: list[dict], in_scope: bool = True, use_model
         ops = tree_ops(tree)
         for o in set(ops):
             res.count("op:" + o)
+        count_alias_features(res, tree, n, "")
+        if len(case["points"]) > 1:
+            res.count("points:2-different(results of the first re-read after the second)")
         m = out_dim(tree, n)
         res.count(f"n={n},m={m}{'(n==m)' if n == m else ''}")
         res.count(f"depth={tree_depth(tree)}")
@@ -951,12 +1104,80 @@ SWEEP_KINDS = [
     "add", "sub", "mul", "div", "neg", "offn", "offa", "res", "lc", "cat", "t1", "t2", "cl",
     "agg-sumsq", "agg-possumsq", "agg-max", "agg-uks", "agg-lks", "agg-iks", "nrm", "lres", "lin", "quad", "poly",
 ]
+VIEW_WRAPPERS = ["poly", "res", "lc", "neg", "offn", "offa", "cat", "cl", "mul", "add-num", "agg-sumsq", "agg-possumsq", "agg-max", "agg-uks"]
+SWEEP_KINDS += ["view:" + w for w in VIEW_WRAPPERS]
+SWEEP_KINDS += [f"twice:{op}:{how}" for op in (*BINOPS, "cat") for how in ("lc-lc", "res-res", "same-argument", "direct-lc")]
 SWEEP_CALLS = ("v", "j", "f")
 SWEEP_MIDS = ("nothing", "x-inplace", "x-fresh-equal", "x-fresh-new")
 
 
+def gen_view_tree(rng, w: str) -> tuple[int, dict] | None:
+    """A user function returning (a view of) its input array, called by a node of kind `w`."""
+    n = rng.pick([2, 3, 3])
+    m = rng.randint(1, n) if not w.startswith("agg-") else rng.randint(2, n)
+    if rng.chance(0.4):
+        m = n
+    if w == "poly":
+        return n, gen_view_leaf(rng, n, m)
+    if w == "res":
+        kf = rng.pick([1, 1, 2])
+        N = n + kf
+        m = rng.randint(1, N)
+        return n, {"op": "res", "a": gen_view_leaf(rng, N, m), "N": N, "frozen": sorted(rng.sample(range(N), kf)), "values": gen_point(rng, kf)}
+    if w == "lc":
+        k = rng.pick([2, 3, 4])
+        m = rng.randint(1, k)
+        return n, {"op": "lc", "a": gen_view_leaf(rng, k, m), "A": [[str(rng.randint(-2, 2)) for _ in range(n)] for _ in range(k)]}
+    v = gen_view_leaf(rng, n, m)
+    if w == "neg":
+        return n, {"op": "neg", "a": v}
+    if w == "offn":
+        return n, {"op": "offn", "a": v, "v": str(rng.randint(-3, 3))}
+    if w == "offa":
+        return n, {"op": "offa", "a": v, "v": [str(rng.randint(-3, 3)) for _ in range(m)]}
+    if w == "cat":
+        other = gen_view_leaf(rng, n, rng.randint(1, n)) if rng.chance(0.5) else gen_poly(rng, n, rng.randint(1, 2))
+        return n, {"op": "cat", "args": [v, other] if rng.chance(0.5) else [other, v]}
+    if w == "cl":
+        return n, {"op": "cl", "a": v, "at": [str(rng.pick([-3, -2, -1, 1, 2, 3])) for _ in range(n)],
+                   "mask": None if rng.chance(0.4) else [int(rng.chance(0.6)) for _ in range(n)]}
+    if w == "mul":
+        return n, {"op": rng.pick(["mul", "add", "sub"]), "a": v, "b": gen_node(rng, n, rng.pick([m, 1]), 1)}
+    if w == "add-num":
+        return n, {"op": rng.pick(["add", "mul", "sub", "div"]), "a": v, "b": {"op": "num", "v": str(rng.pick([-3, -2, 2, 4]))}}
+    if w.startswith("agg-"):
+        node = gen_agg(rng, n, 0, w[4:])
+        node["a"] = v
+        node["idx"] = None if rng.chance(0.6) else sorted(rng.sample(range(m), rng.randint(1, m)))
+        k = m if node["idx"] is None else len(node["idx"])
+        if isinstance(node["scale"], list):
+            node["scale"] = [rat(rng.pick([Fraction(1), Fraction(2), Fraction(3), Fraction(1, 2)])) for _ in range(k)]
+        return n, node
+    return None
+
+
 def gen_tree_of_kind(rng, kind: str) -> tuple[int, dict] | None:
     """A random tree whose root is of the given kind (operators: both operands are functions)."""
+    if kind.startswith("view:") or kind.startswith("twice:"):
+        for _ in range(100):
+            if kind.startswith("view:"):
+                nt = gen_view_tree(rng, kind[5:])
+                if nt is None or nt[1] is None:
+                    continue
+                n, tree = nt
+            else:
+                _, op, how = kind.split(":")
+                n = rng.pick([1, 2, 2, 3])
+                m = rng.pick([1, 2, 3])
+                a, b, how = gen_shared_pair(rng, n, m, 2, how)
+                tree = {"op": "cat", "args": [a, b], "shared_how": how} if op == "cat" else {"op": op, "a": a, "b": b, "shared_how": how}
+            try:
+                out_dim(tree, n)
+            except IllShaped:
+                continue
+            if share_consistent(tree):
+                return n, tree
+        return None
     for _ in range(400):
         n = rng.pick([1, 2, 2, 3])
         m = rng.pick([1, 2, 3])
@@ -1089,6 +1310,9 @@ def check_sessions(res: Result, cases: list[dict], use_model: bool = True) -> No
             res.count("session-history:" + pat)
         for o in set(tree_ops(tree)):
             res.count("session-op:" + o)
+        count_alias_features(res, tree, n, "session-")
+        if any(r.get("result_is_callers_buffer") for r in obs.get("steps", [])):
+            res.count("session-result-is-the-callers-own-buffer(not re-read)")
         res.nontrivial("session:" + json.dumps([n, tree, sc], sort_keys=True))
         bad = hist.judge_session(case, obs, session_expect, res)
         first_call = next((r for s_, r in zip(sc, obs.get("steps", [])) if s_["do"] in hist.CALLS), {})
